@@ -40,8 +40,8 @@ ASSUMPTIONS = [
 ]
 MINIMUMS = {
     'quick': {'evaluations': 2500, 'leaves_compared': 6000, 'overrides_applied': 6000,
-              'directive_sequences': 600, 'illegal_sequences_rejected': 100, 'serializer_roundtrips': 200,
-              'call_expressions_parsed': 800, 'nonliteral_rejected': 150, 'positional_paths': 300},
+              'directive_sequences': 600, 'illegal_sequences_rejected': 80, 'serializer_roundtrips': 200,
+              'call_expressions_parsed': 800, 'nonliteral_rejected': 120, 'positional_paths': 300},
     'thorough': {'evaluations': 1000},
 }
 
